@@ -80,6 +80,12 @@ CLAIMED = {
     text="All bitmap lengths 0..255, all bitmap contents, all cell allocations (mask array symbolic), si4 on/off; no bound.",
     note="Trusted: verbatim extraction drops LOGP (arguments not evaluated); prelude declarations; induction principle for the counting-function lemmas; callers' buffer sizes are pre-conditions.",
     design="9/C20"),
+ "C06": dict(
+    engine="cvc",
+    technique="contract-based deductive verification: CVC VCs from sercomm.c (host build and ARM firmware build of the same source): per-octet contracts of sercomm_drv_pull / sercomm_drv_rx_char as case tables over the driver state, wire-grammar invariant of the transmit side, transmitter/receiver coupling invariant (product step), over-long-frame resynchronisation invariant; z3",
+    text="All DLCIs below the receive table size (incl. 0x00/0x7d/0x7e), all payload contents and lengths below the receive buffer, any interleaving point of the octet stream (per-octet inductive invariants, no bound on frame length or number of frames).",
+    note="Trusted: clang front end, VC generator, z3; msgb/llist primitives and the UART hand-over used through contracts (listed in evidence); interrupt masking is the call-site protocol; coupling/resync lemmas reason over the step contract's case table, which stage 1 proves against the code.",
+    design="9/C06"),
  "C08": dict(
     engine="cvc",
     technique="contract-based deductive verification: CVC VCs from tdma_sched.c (ARM parse): per-function contracts over the abstract ring view, loop invariant for tdma_schedule_set over counting functions, sort as permutation + ordering, execute/advance/reset; history lemma as inductive invariant; z3",
